@@ -121,18 +121,20 @@ Definition crash_recovered (cfg : config) (ns : node_state) : bool :=
   c_resetup_crashed cfg && match ns_daemon ns with Some (_, _, cr) => cr | None => false end.
 
 (* approveFailover: true = approved.  mstate_dcs = clusterStateDcs[master] *)
-Definition approve_failover (cfg : config) (cs : list (host * node_state)) (mstate_dcs : node_state)
-           (active : list host) (m : mgr_mem) (master : host) : prog bool :=
-  if negb (c_failover cfg) then Ret false else
-  pre <- (if crash_recovered cfg mstate_dcs then Ret true
-          else if ns_fs_ro mstate_dcs then Ret true
-          else
-            let running := count_running_ha_slaves cs in
-            if (0 <? running) && (running =? count_ha_nodes cs - 1) then Ret false
-            else if 0 <? c_failover_delay cfg then
-              t <- now_ 745 ;; Ret ((failed_at m master =? 0) || negb (t - failed_at m master <? c_failover_delay cfg))   (* zero clock: time.Since is huge *)
-            else Ret true) ;;
-  if negb pre then Ret false else
+Definition all_others_replicating (cs : list (host * node_state)) : bool :=
+  (0 <? count_running_ha_slaves cs) && (count_running_ha_slaves cs =? count_ha_nodes cs - 1).
+
+(* replication / delay checks, skipped after crash recovery (with resetup) and on a read-only filesystem *)
+Definition approve_pre (cfg : config) (cs : list (host * node_state)) (mstate_dcs : node_state) (m : mgr_mem) (master : host) : prog bool :=
+  if crash_recovered cfg mstate_dcs then Ret true
+  else if ns_fs_ro mstate_dcs then Ret true
+  else if all_others_replicating cs then Ret false
+  else if 0 <? c_failover_delay cfg then
+    t <- now_ 745 ;; Ret ((failed_at m master =? 0) || negb (t - failed_at m master <? c_failover_delay cfg))   (* zero clock: time.Since is huge *)
+  else Ret true.
+
+(* quorum of alive replicas in the published list, then the cooldown *)
+Definition approve_tail (cfg : config) (cs : list (host * node_state)) (active : list host) : prog bool :=
   if negb (check_quorum (c_semi_sync cfg) (c_wait_count cfg) (Z.of_nat (length active)) (count_alive_ha_slaves_within active cs)) then Ret false else
   Do 761 (DcsGet PLastSwitch) (fun r =>
     match r with
@@ -146,6 +148,12 @@ Definition approve_failover (cfg : config) (cs : list (host * node_state)) (msta
         end
     | _ => Ret false
     end).
+
+Definition approve_failover (cfg : config) (cs : list (host * node_state)) (mstate_dcs : node_state)
+           (active : list host) (m : mgr_mem) (master : host) : prog bool :=
+  if negb (c_failover cfg) then Ret false else
+  pre <- approve_pre cfg cs mstate_dcs m master ;;
+  if negb pre then Ret false else approve_tail cfg cs active.
 
 (* approveSwitchover: None = approved, Some code = rejected *)
 Definition approve_switchover (cfg : config) (sw : switch_rec) (active : list host) (cs : list (host * node_state)) : option Z :=
